@@ -60,7 +60,7 @@ theorem body_runs {f : PSFields} {stop : StopTok} {child : ChildPS} {pos n : Nat
   have : mergeChars (sh st') = mergeChars tr := by rw [hs']; rfl
   exact mergeChars_append_left this _
 
-theorem ef_eq (hn : NormOk m md) (br : Bool) :
+theorem ef_eq (hn : NormOk m md) (br : Xp) :
     ({ stdF keys m md true br with enEnvs := false } : PSFields).normalize = stdF keys m md false br := by
   cases m with
   | false => cases (hn rfl); rfl
@@ -73,7 +73,7 @@ theorem group_runs (htol : env.tol = false) (hn : NormOk m md) {pos p : Nat} {re
       (stdF keys m md true) (pos + 1)) (.ok (.list a b ns) p)) :
     Ev env (.pc (.group (.auto ['{']) false false) (stdF keys m md true) pos)
       (.ok (.node (Node.group pos p (psInfo (stdF keys m md true)) ['{'] ['}'] (some ns))) p) := by
-  have hps := psStd_std keys m md true false hn
+  have hps := psStd_std keys m md true none hn
   have hpk : peekImpl (mkPS (stdF keys m md true)) env.s pos = _ := (peek0 hd (by decide)).trans (peekAtChar_open hps hd)
   obtain ⟨n, hb⟩ := hb
   refine Ev.of_step ⟨n, fun k hk => ?_⟩
@@ -98,23 +98,31 @@ theorem group_runs (htol : env.tol = false) (hn : NormOk m md) {pos p : Nat} {re
   rw [hb k hk]
   rfl
 
-theorem groupState_br (ee : Bool) : groupState (.pair ['['] [']']) (stdF keys m md ee) = some (stdF keys m md ee true) := by
+theorem groupState_x (ee : Bool) {o c : Char} (ho : isXDelim o = true) :
+    groupState (.pair [o] [c]) (stdF keys m md ee) = some (stdF keys m md ee (some (o, c))) := by
+  have ho' := (xdelim_ne ho).2.2.2.1
+  unfold groupState
+  have h : (stdF keys m md ee).groupDelims.contains ([o], [c]) = false := by
+    show (brPairs none).contains ([o], [c]) = false
+    simp [brPairs, ho']
+  simp only [h]
   rfl
 
-/-- `LatexDelimitedGroupParser` on a written optional argument `[ body ]` -/
-theorem brgroup_runs (htol : env.tol = false) (hn : NormOk m md) (ap : Bool) {pos p : Nat} {rest : Str} {a b : Option Nat}
-    {ns : List Node} (hd : env.s.drop pos = '[' :: rest)
-    (hb : Ev env (.pc (.general (.braceClose [']']) true (.group ['['] (stdF keys m md true true) (stdF keys m md true)))
-      (stdF keys m md true true) (pos + 1)) (.ok (.list a b ns) p)) :
-    Ev env (.pc (.group (.pair ['['] [']']) true ap) (stdF keys m md true) pos)
-      (.ok (.node (Node.group pos p (psInfo (stdF keys m md true true)) ['['] [']'] (some ns))) p) := by
-  have hps := psStd_std keys m md true true hn
-  have hpk : peekImpl (mkPS (stdF keys m md true true)) env.s pos = _ := (peek0 hd (by decide)).trans (peekAtChar_bopen hps hd)
+/-- `LatexDelimitedGroupParser` on a written delimited argument `o body c` (optional or not) -/
+theorem xgroup_runs (htol : env.tol = false) (hn : NormOk m md) {o c : Char} (hx : XpOk (some (o, c))) (opt ap : Bool)
+    {pos p : Nat} {rest : Str} {a b : Option Nat} {ns : List Node} (hd : env.s.drop pos = o :: rest)
+    (hb : Ev env (.pc (.general (.braceClose [c]) true (.group [o] (stdF keys m md true (some (o, c))) (stdF keys m md true)))
+      (stdF keys m md true (some (o, c))) (pos + 1)) (.ok (.list a b ns) p)) :
+    Ev env (.pc (.group (.pair [o] [c]) opt ap) (stdF keys m md true) pos)
+      (.ok (.node (Node.group pos p (psInfo (stdF keys m md true (some (o, c)))) [o] [c] (some ns))) p) := by
+  have hps := psStd_std keys m md true (some (o, c)) hn
+  have hpk : peekImpl (mkPS (stdF keys m md true (some (o, c)))) env.s pos = _ :=
+    (peek0 hd (xdelim_ne hx.1).2.2.2.2.2).trans (peekAtChar_xopen hps hx hd)
   obtain ⟨n, hb⟩ := hb
   refine Ev.of_step ⟨n, fun k hk => ?_⟩
-  show parseContent env.tol (rawGroup env (run env k) (.pair ['['] [']']) true ap (stdF keys m md true) pos) = _
+  show parseContent env.tol (rawGroup env (run env k) (.pair [o] [c]) opt ap (stdF keys m md true) pos) = _
   unfold rawGroup
-  rw [groupState_br]
+  rw [groupState_x true hx.1]
   simp only
   rw [htol, peekTok_false, hpk]
   simp only
@@ -126,41 +134,40 @@ theorem brgroup_runs (htol : env.tol = false) (hn : NormOk m md) (ap : Bool) {po
 
 theorem nextNonSpace_eq (F : Str) : nextNonSpace F = (F.dropWhile isPySpace).head? := rfl
 
-/-- `LatexDelimitedGroupParser` on an optional argument that is not there -/
-theorem group_absent_runs (htol : env.tol = false) (hn : NormOk m md) (ap : Bool) {pos : Nat} {F : Str}
-    (hd : env.s.drop pos = F) (hok : absentFollowOk F = true) (habs : absentOk (.o ap) F = true) :
-    Ev env (.pc (.group (.pair ['['] [']']) true ap) (stdF keys m md true) pos) (.ok .none pos) := by
-  have hps := psStd_std keys m md true true hn
+/-- `LatexDelimitedGroupParser` on an optional delimited argument that is not there -/
+theorem xgroup_absent_runs (htol : env.tol = false) (hn : NormOk m md) {o c : Char} (ho : isXDelim o = true) (ap : Bool) {pos : Nat}
+    {F : Str} (hd : env.s.drop pos = F) (hok : absentFollowOk F = true)
+    (habs : (if ap then nextNonSpace F != some o else F.head? != some o) = true) :
+    Ev env (.pc (.group (.pair [o] [c]) true ap) (stdF keys m md true) pos) (.ok .none pos) := by
+  have hps := psStd_std keys m md true (some (o, c)) hn
   refine Ev.of_const (fun rec => ?_)
-  show parseContent env.tol (rawGroup env rec (.pair ['['] [']']) true ap (stdF keys m md true) pos) = _
+  show parseContent env.tol (rawGroup env rec (.pair [o] [c]) true ap (stdF keys m md true) pos) = _
   unfold rawGroup
-  rw [groupState_br]
+  rw [groupState_x true ho]
   simp only
   rw [htol, peekTok_false]
-  rcases peek_follow hps hd hok with ⟨_, h⟩ | ⟨c, r, t, hF, h, hta⟩
+  rcases peek_follow hps hd hok with ⟨_, h⟩ | ⟨c0, r, t, hF, h, hta⟩
   · rw [h]; rfl
   · rw [h]
     simp only
     unfold rawGroupTok
-    have hcond : (!(!ap && !t.pre.isEmpty) && t.kind == TokKind.braceOpen && t.arg == GroupDelims.opener (.pair ['['] [']'])) = false := by
-      cases hc : (!(!ap && !t.pre.isEmpty) && t.kind == TokKind.braceOpen && t.arg == GroupDelims.opener (.pair ['['] [']'])) with
+    have hcond : (!(!ap && !t.pre.isEmpty) && t.kind == TokKind.braceOpen && t.arg == GroupDelims.opener (.pair [o] [c])) = false := by
+      cases hc : (!(!ap && !t.pre.isEmpty) && t.kind == TokKind.braceOpen && t.arg == GroupDelims.opener (.pair [o] [c])) with
       | false => rfl
       | true =>
         exfalso
         simp only [Bool.and_eq_true, GroupDelims.opener] at hc
         obtain ⟨⟨h1, hk⟩, ha⟩ := hc
         have hk' := kind_braceOpen_of_beq _ hk
-        have ha' : t.arg = ['['] := by simpa using ha
-        have hc' : c = '[' := by
+        have ha' : t.arg = [o] := by simpa using ha
+        have hc' : c0 = o := by
           have := hta.brace hk'
           rw [ha'] at this
           simpa using this.symm
         subst hc'
-        unfold absentOk slotOpener at habs
-        simp only at habs
         cases ap with
         | true =>
-          simp only [Bool.not_true, Bool.false_eq_true, if_false, nextNonSpace_eq, hF] at habs
+          simp only [if_true, nextNonSpace_eq, hF] at habs
           simp at habs
         | false =>
           simp only [Bool.not_false, Bool.true_and, Bool.not_eq_eq_eq_not, Bool.not_true, Bool.not_eq_false] at h1
@@ -168,11 +175,11 @@ theorem group_absent_runs (htol : env.tol = false) (hn : NormOk m md) (ap : Bool
             have := hta.pre
             rw [← this]
             exact List.isEmpty_iff.mp h1
-          have hFF : F = '[' :: r := by
+          have hFF : F = c0 :: r := by
             have := takeWhile_append_dropWhile isPySpace F
             rw [hpre, hF] at this
             exact this.symm
-          simp only [Bool.not_false, if_true, hFF] at habs
+          simp only [Bool.false_eq_true, if_false, hFF] at habs
           simp at habs
     rw [hcond]
     simp only [Bool.false_eq_true, if_false, if_true]
@@ -189,7 +196,7 @@ theorem marker_star_runs (htol : env.tol = false) (hn : NormOk m md) (hk : keysC
     (hd : env.s.drop pos = '*' :: rest) :
     Ev env (.pc (.marker '*' false true) (stdF keys m md true) pos)
       (.ok (.node (Node.chars pos (pos + 1) (psInfo (stdF keys m md true)) ['*'])) (pos + 1)) := by
-  have hps := psStd_std keys m md true false hn
+  have hps := psStd_std keys m md true none hn
   have hpk : peekImpl (mkPS (stdF keys m md true)) env.s pos = _ := (peek0 hd (by decide)).trans (peekAtChar_star hps hk hd)
   refine Ev.of_const (fun rec => ?_)
   show parseContent env.tol (rawMarker env '*' false true (stdF keys m md true) pos) = _
@@ -197,46 +204,104 @@ theorem marker_star_runs (htol : env.tol = false) (hn : NormOk m md) (hk : keysC
   rw [htol, peekTok_false, hpk]
   rfl
 
-/-- the star marker, not there -/
-theorem marker_absent_runs (htol : env.tol = false) (hn : NormOk m md) {pos : Nat} {F : Str}
-    (hd : env.s.drop pos = F) (hok : absentFollowOk F = true) (habs : absentOk .s F = true) :
-    Ev env (.pc (.marker '*' false true) (stdF keys m md true) pos) (.ok .none pos) := by
-  have hps := psStd_std keys m md true false hn
+/-- a marker that is not there -/
+theorem marker_absent_runs (htol : env.tol = false) (hn : NormOk m md) (c : Char) (fl : Bool) {pos : Nat} {F : Str}
+    (hd : env.s.drop pos = F) (hok : absentFollowOk F = true) (habs : (nextNonSpace F != some c) = true) :
+    Ev env (.pc (.marker c fl true) (stdF keys m md true) pos) (.ok .none pos) := by
+  have hps := psStd_std keys m md true none hn
   refine Ev.of_const (fun rec => ?_)
-  show parseContent env.tol (rawMarker env '*' false true (stdF keys m md true) pos) = _
+  show parseContent env.tol (rawMarker env c fl true (stdF keys m md true) pos) = _
   unfold rawMarker
   rw [htol, peekTok_false]
-  rcases peek_follow hps hd hok with ⟨_, h⟩ | ⟨c, r, t, hF, h, hta⟩
+  rcases peek_follow hps hd hok with ⟨_, h⟩ | ⟨c0, r, t, hF, h, hta⟩
   · rw [h]; rfl
   · rw [h]
     simp only [Bool.not_true, Bool.and_false, Bool.false_eq_true, if_false]
-    have hcond : ((t.kind == TokKind.char || t.kind == TokKind.specials) && t.arg == ['*']) = false := by
-      cases hc : ((t.kind == TokKind.char || t.kind == TokKind.specials) && t.arg == ['*']) with
+    have hcond : ((t.kind == TokKind.char || t.kind == TokKind.specials) && t.arg == [c]) = false := by
+      cases hc : ((t.kind == TokKind.char || t.kind == TokKind.specials) && t.arg == [c]) with
       | false => rfl
       | true =>
         exfalso
         simp only [Bool.and_eq_true, Bool.or_eq_true] at hc
         obtain ⟨hk, ha⟩ := hc
-        have ha' : t.arg = ['*'] := by simpa using ha
+        have ha' : t.arg = [c] := by simpa using ha
         have hk' : t.kind = .char ∨ t.kind = .specials := by
           rcases hk with hk | hk
           · left; revert hk; cases t.kind <;> intro hk <;> first | rfl | cases hk
           · right; revert hk; cases t.kind <;> intro hk <;> first | rfl | cases hk
-        have hc' := hta.single hk' '*' ha'
+        have hc' := hta.single hk' c ha'
         subst hc'
-        unfold absentOk slotOpener at habs
-        simp only [Bool.false_eq_true, if_false, nextNonSpace_eq, hF] at habs
+        simp only [nextNonSpace_eq, hF] at habs
         simp at habs
     rw [hcond]
     simp only [Bool.false_eq_true, if_false]
     split <;> rfl
+
+/-- characters that can be written as a marker: the tokenizer makes them a `char` token, or the specials token of
+    exactly that character -/
+theorem peekAtChar_marker {ps : PState} {ee m' : Bool} {ex : Option (Str × Bool)} (hps : PSStd keys ee m' ex none ps)
+    {s : Str} {p : Nat} {c : Char} {rest pre : Str} (hd : s.drop p = c :: rest) (hm : markerOk keys c rest = true) :
+    ∃ t, peekAtChar ps s p c pre = .tok t ∧ (t.kind = .char ∨ t.kind = .specials) ∧ t.arg = [c] ∧ t.pos = p ∧
+      t.posEnd = p + 1 ∧ t.pre = pre := by
+  unfold markerOk at hm
+  simp only [Bool.and_eq_true, Bool.not_eq_eq_eq_not, Bool.not_true, bne_iff_ne, ne_eq] at hm
+  obtain ⟨⟨⟨⟨⟨⟨_, h2⟩, h3⟩, h4⟩, h5⟩, h1⟩, hts⟩ := hm
+  rw [peekAtChar_toGroups hps hd h1 h2 h3]
+  unfold peekGroups
+  rw [hps.eg, hps.go, hps.gc]
+  have e5 : (brPairs none).any (fun d => d.1 == [c]) = false := by simp [brPairs, Ne.symm h4]
+  have e6 : ((brPairs none).map (·.2)).any (fun d => d == [c]) = false := by simp [brPairs, Ne.symm h5]
+  simp only [e5, e6, if_true, Bool.false_eq_true, if_false]
+  unfold peekSpecialsOrChar
+  rw [hps.hc, hps.es, hps.sp]
+  simp only [Bool.and_self, if_true]
+  rw [testSpecials_drop, hd]
+  cases hh : testSpecials keys (c :: rest) 0 with
+  | none =>
+    simp only
+    unfold charToken
+    rw [hps.fb]
+    exact ⟨_, by simp; rfl, Or.inl rfl, rfl, rfl, rfl, rfl⟩
+  | some k =>
+    rw [hh] at hts
+    have hk : k = [c] := by simpa using hts
+    subst hk
+    exact ⟨_, rfl, Or.inr rfl, rfl, rfl, rfl, rfl⟩
+
+/-- a written marker -/
+theorem marker_runs (htol : env.tol = false) (hn : NormOk m md) {c : Char} (fl : Bool) {pos : Nat} {rest : Str}
+    (hd : env.s.drop pos = c :: rest) (hm : markerOk keys c rest = true) :
+    Ev env (.pc (.marker c fl true) (stdF keys m md true) pos)
+      (.ok (if fl then .list (some pos) (some (pos + 1)) [Node.chars pos (pos + 1) (psInfo (stdF keys m md true)) [c]]
+            else .node (Node.chars pos (pos + 1) (psInfo (stdF keys m md true)) [c])) (pos + 1)) := by
+  have hps := psStd_std keys m md true none hn
+  have hsp : isPySpace c = false := by
+    unfold markerOk at hm
+    simp only [Bool.and_eq_true, Bool.not_eq_eq_eq_not, Bool.not_true] at hm
+    exact hm.1.1.1.1.1.1
+  obtain ⟨t, ht, hkind, harg, hpos, hpe, hpre⟩ := peekAtChar_marker (pre := []) hps hd hm
+  have hpk : peekImpl (mkPS (stdF keys m md true)) env.s pos = .tok t := (peek0 hd hsp).trans ht
+  refine Ev.of_const (fun rec => ?_)
+  show parseContent env.tol (rawMarker env c fl true (stdF keys m md true) pos) = _
+  unfold rawMarker
+  rw [htol, peekTok_false, hpk]
+  simp only [Bool.not_true, Bool.and_false, Bool.false_eq_true, if_false]
+  have hcond : ((t.kind == TokKind.char || t.kind == TokKind.specials) && t.arg == [c]) = true := by
+    rw [harg]
+    rcases hkind with h | h
+    · rw [h]; simp; exact Or.inl rfl
+    · rw [h]; simp; exact Or.inr rfl
+  rw [hcond]
+  simp only [if_true]
+  rw [hpos, hpe]
+  cases fl <;> rfl
 
 /-- the expression parser in front of a brace group -/
 theorem expr_runs (htol : env.tol = false) (hn : NormOk m md) {pos p : Nat} {rest : Str} {g : Node}
     (hd : env.s.drop pos = '{' :: rest)
     (hg : Ev env (.pc (.group (.auto ['{']) false false) (stdF keys m md true) pos) (.ok (.node g) p)) :
     Ev env (.pc (.expression true) (stdF keys m md true) pos) (.ok (.node g) p) := by
-  have hps := psStd_std keys m md false false hn
+  have hps := psStd_std keys m md false none hn
   have hpk : peekImpl (mkPS (stdF keys m md false)) env.s pos = _ := (peek0 hd (by decide)).trans (peekAtChar_open hps hd)
   obtain ⟨n, hg⟩ := hg
   have h1 : Ev env (.expr true [] (stdF keys m md true) pos) (.ok (.node g) p) := by
@@ -244,7 +309,7 @@ theorem expr_runs (htol : env.tol = false) (hn : NormOk m md) {pos p : Nat} {res
     show exprStep env (run env k) true [] (stdF keys m md true) pos = _
     unfold exprStep
     simp only
-    rw [ef_eq hn false, htol, peekTok_false, hpk]
+    rw [ef_eq hn none, htol, peekTok_false, hpk]
     simp only
     unfold exprTok
     simp only [List.isEmpty_nil, Bool.not_true, Bool.false_eq_true, if_false]
@@ -255,6 +320,36 @@ theorem expr_runs (htol : env.tol = false) (hn : NormOk m md) {pos p : Nat} {res
     unfold exprOnTok
     simp only
     rw [hg k hk]
+    rfl
+  obtain ⟨n1, h1⟩ := h1
+  refine Ev.of_step ⟨n1, fun k hk => ?_⟩
+  show parseContent env.tol (.ret (run env k (.expr true [] (stdF keys m md true) pos))) = _
+  rw [h1 k hk]
+  rfl
+
+/-- the expression parser in front of a single text character -/
+theorem expr_tok_runs (htol : env.tol = false) (hn : NormOk m md) (hk : keysCore keys = true) {pos : Nat} {c : Char} {rest : Str}
+    (hd : env.s.drop pos = c :: rest) (hc : isTextChar c = true) :
+    Ev env (.pc (.expression true) (stdF keys m md true) pos)
+      (.ok (.node (Node.chars pos (pos + 1) (psInfo (stdF keys m md true)) [c])) (pos + 1)) := by
+  have hps := psStd_std keys m md false none hn
+  have hpk : peekImpl (mkPS (stdF keys m md false)) env.s pos = _ :=
+    (peek0 hd (textChar_ne hc).2.2.2.2.2).trans (peekAtChar_text hps trivial hk hd hc)
+  have h1 : Ev env (.expr true [] (stdF keys m md true) pos)
+      (.ok (.node (Node.chars pos (pos + 1) (psInfo (stdF keys m md true)) [c])) (pos + 1)) := by
+    refine Ev.of_const (fun rec => ?_)
+    show exprStep env rec true [] (stdF keys m md true) pos = _
+    unfold exprStep
+    simp only
+    rw [ef_eq hn none, htol, peekTok_false, hpk]
+    simp only
+    unfold exprTok
+    simp only [List.isEmpty_nil, Bool.not_true, Bool.false_eq_true, if_false]
+    have e1 : (TokKind.char == TokKind.macro) = false := rfl
+    have e2 : (TokKind.char == TokKind.specials) = false := rfl
+    rw [e1, e2]
+    simp only [Bool.false_eq_true, if_false]
+    unfold exprOnTok
     rfl
   obtain ⟨n1, h1⟩ := h1
   refine Ev.of_step ⟨n1, fun k hk => ?_⟩
@@ -295,14 +390,42 @@ theorem arguments_runs {K : PSFields} {sig : List ArgSpec} {pos p : Nat} {al : L
   rw [h k hk]
   rfl
 
-theorem macroCall_runs {K : PSFields} {t : Token} {a : ArgsP} {pos p : Nat} {al : List Arg}
-    (h : Ev env (.pc (.arguments a) K pos) (.ok (.args none none al) p)) :
+theorem macroCall_runs {K : PSFields} {t : Token} {a : ArgsP} {pos p : Nat} {x y : Option Nat} {al : List Arg}
+    (h : Ev env (.pc (.arguments a) K pos) (.ok (.args x y al) p)) :
     Ev env (.pc (.macroCall t a) K pos) (.ok (.node (Node.mac t.pos p (psInfo K) t.arg t.post (some al))) p) := by
   obtain ⟨n, h⟩ := h
   refine Ev.of_step ⟨n, fun k hk => ?_⟩
   show parseContent env.tol (rawCall (run env k) _ a K pos) = _
   unfold rawCall
   rw [h k hk]
+  rfl
+
+/-- the legacy `\verb` argument parser on `d text d` -/
+theorem legacyVerb_runs (K : PSFields) {pos : Nat} {d : Char} {text rest : Str}
+    (hd : env.s.drop pos = d :: (text ++ d :: rest)) (hsp : isPySpace d = false) (hnc : text.contains d = false) :
+    Ev env (.pc (.arguments .legacyVerb) K pos)
+      (.ok (.args (some (pos + 1)) (some (pos + 1 + text.length + 1))
+        [.node (Node.chars (pos + 1) (pos + 1 + text.length) (psInfo K) text)]) (pos + 1 + text.length + 1)) := by
+  refine Ev.of_const (fun rec => ?_)
+  show parseContent env.tol (rawLegacyVerb env K pos) = _
+  unfold rawLegacyVerb
+  have hsr : spaceRun env.s pos = [] := spaceRun_of_drop (w := []) hd rfl (by simp [headIs, hsp])
+  simp only [hsr, List.length_nil, Nat.add_zero]
+  rw [getElem?_of_drop hd]
+  simp only
+  have hd1 : env.s.drop (pos + 1) = text ++ d :: rest := drop_succ_of_drop hd
+  have hfind : findCharFrom env.s d (pos + 1) = some (pos + 1 + text.length) := by
+    unfold findCharFrom
+    rw [hd1, findIdx_char d text _ hnc]
+  rw [hfind]
+  simp only
+  have hsl : slice env.s (pos + 1) (pos + 1 + text.length) = text := by
+    unfold slice
+    rw [hd1]
+    have : pos + 1 + text.length - (pos + 1) = text.length := by omega
+    rw [this, List.take_left']
+    rfl
+  rw [hsl]
   rfl
 
 theorem specialsCall_runs {K : PSFields} {t : Token} {a : ArgsP} {pos p : Nat} {al : List Arg}
@@ -314,6 +437,55 @@ theorem specialsCall_runs {K : PSFields} {t : Token} {a : ArgsP} {pos p : Nat} {
   unfold rawCall
   rw [h k hk]
   rfl
+
+/-! ### environments -/
+
+theorem envBody_runs {K : PSFields} {name : Str} {pos p : Nat} {a b : Option Nat} {ns : List Node}
+    (h : Ev env (.pc (.general (.endEnv name) true .same) K pos) (.ok (.list a b ns) p)) :
+    Ev env (.pc (.envBody name) K pos) (.ok (.list a b ns) p) := by
+  obtain ⟨n, h⟩ := h
+  refine Ev.of_step ⟨n, fun k hk => ?_⟩
+  show parseContent env.tol (rawEnvBody (run env k) name K pos) = _
+  unfold rawEnvBody
+  rw [h k hk]
+  rfl
+
+theorem envCall_runs {K : PSFields} {t : Token} {a : ArgsP} {bm : Bool} {pos pA p : Nat} {x y : Option Nat} {al : List Arg}
+    {a' b' : Option Nat} {ns : List Node}
+    (hargs : Ev env (.pc (.arguments a) K pos) (.ok (.args x y al) pA))
+    (hbody : Ev env (.pc (.envBody t.arg) (if bm then applyDelta K .enterMath else K) pA) (.ok (.list a' b' ns) p)) :
+    Ev env (.pc (.envCall t a bm) K pos) (.ok (.node (Node.env t.pos p (psInfo K) t.arg (some al) (some ns))) p) := by
+  obtain ⟨n1, h1⟩ := hargs
+  obtain ⟨n2, h2⟩ := hbody
+  refine Ev.of_step ⟨max n1 n2, fun k hk => ?_⟩
+  show parseContent env.tol (rawEnvCall (run env k) t a bm K pos) = _
+  unfold rawEnvCall
+  rw [h1 k (by omega)]
+  simp only [bindOk]
+  rw [h2 k (by omega)]
+  rfl
+
+theorem beginStr_append (name Y : Str) : beginStr name ++ Y = '\\' :: (envWordStr true ++ '{' :: (name ++ '}' :: Y)) := by
+  show ("\\begin{".toList ++ name ++ ['}']) ++ Y = _
+  rw [List.append_assoc, List.append_assoc]
+  rfl
+
+theorem endStr_append (name Y : Str) : endStr name ++ Y = '\\' :: (envWordStr false ++ '{' :: (name ++ '}' :: Y)) := by
+  show ("\\end{".toList ++ name ++ ['}']) ++ Y = _
+  rw [List.append_assoc, List.append_assoc]
+  rfl
+
+theorem beginStr_length (name : Str) : (beginStr name).length = 1 + envWordLen true + 1 + name.length + 1 := by
+  show ("\\begin{".toList ++ name ++ ['}']).length = _
+  simp only [List.length_append, List.length_cons, List.length_nil]
+  show 7 + name.length + 1 = 1 + 5 + 1 + name.length + 1
+  omega
+
+theorem endStr_length (name : Str) : (endStr name).length = 1 + envWordLen false + 1 + name.length + 1 := by
+  show ("\\end{".toList ++ name ++ ['}']).length = _
+  simp only [List.length_append, List.length_cons, List.length_nil]
+  show 5 + name.length + 1 = 1 + 3 + 1 + name.length + 1
+  omega
 
 /-! ### what the collector does with the tokens that start a sub-parse -/
 
@@ -338,6 +510,22 @@ theorem dispatch_macro {a : ArgsP} (hkind : tk.kind = .macro) (hspec : env.ctx.m
 
 theorem dispatch_specials {a : ArgsP} (hkind : tk.kind = .specials) (hspec : lookupFirst tk.arg env.ctx.specials = some a)
     (hch : child.get L tk = K) (hcall : Ev env (.pc (.specialsCall tk a) K tk.posEnd) (.ok (.node nd) p)) :
+    ∀ st0 : LoopSt, st0.pos = tk.posEnd → ∃ N, ∀ k, N ≤ k →
+      loopDispatch env (run env k) L stop child st0 tk =
+        run env k (.loop L stop child { st0 with pos := p, acc := st0.acc ++ [nd] }) := by
+  intro st0 hst0
+  obtain ⟨N, hN⟩ := hcall
+  refine ⟨N, fun k hk => ?_⟩
+  unfold loopDispatch
+  rw [hkind]
+  simp only
+  rw [hspec]
+  simp only
+  rw [hch, hst0, hN k hk]
+  rfl
+
+theorem dispatch_env {ab : ArgsP × Bool} (hkind : tk.kind = .beginEnv) (hspec : env.ctx.envSpec tk.arg = some ab)
+    (hch : child.get L tk = K) (hcall : Ev env (.pc (.envCall tk ab.1 ab.2) K tk.posEnd) (.ok (.node nd) p)) :
     ∀ st0 : LoopSt, st0.pos = tk.posEnd → ∃ N, ∀ k, N ≤ k →
       loopDispatch env (run env k) L stop child st0 tk =
         run env k (.loop L stop child { st0 with pos := p, acc := st0.acc ++ [nd] }) := by
@@ -420,7 +608,7 @@ theorem math_runs (htol : env.tol = false) (k : FKind) {pos p : Nat} {rest : Str
       (pos + k.opener.length)) (.ok (.list a b ns) p)) :
     Ev env (.pc (.math k.opener) (stdF keys false none true) pos)
       (.ok (.node (Node.math pos p (psInfo (stdF keys false none true)) k.display k.opener k.closer (some ns))) p) := by
-  have hps := psStd_std keys false none true false (fun _ => rfl)
+  have hps := psStd_std keys false none true none (fun _ => rfl)
   obtain ⟨c, r0, hc⟩ : ∃ c r0, k.opener = c :: r0 := by cases k <;> exact ⟨_, _, rfl⟩
   have hcs : isPySpace c = false := by cases k <;> (cases hc; decide)
   have hd' : env.s.drop pos = c :: (r0 ++ rest) := by rw [hd, hc]; rfl
@@ -436,7 +624,7 @@ theorem math_runs (htol : env.tol = false) (k : FKind) {pos p : Nat} {rest : Str
   have hex : (mkPS (mathFields (stdF keys false none true) (mathTok pos [] k.opener k.display).arg)).t.expectClose
       = some (k.closer, k.display) := by
     show (mkPS (mathFields (stdF keys false none true) k.opener)).t.expectClose = _
-    rw [mathFields_std, (psStd_std keys true (some k.opener) true false (normOk_true _)).expect, stdExpect_opener]
+    rw [mathFields_std, (psStd_std keys true (some k.opener) true none (normOk_true _)).expect, stdExpect_opener]
   have hkd : ((mathTok pos [] k.opener k.display).kind == TokKind.mathDisplay) = k.display := by cases k <;> rfl
   have hcond : ((mathTok pos [] k.opener k.display).pre.isEmpty &&
       ((mathTok pos [] k.opener k.display).kind == TokKind.mathInline || (mathTok pos [] k.opener k.display).kind == TokKind.mathDisplay) &&
